@@ -50,16 +50,34 @@ int sim_lib_fds_open(void) {
 }
 
 /* ------------------------------------------------------------ allocation ledger */
+/* The allocator front is the simulator's own: every block gets a tail red zone that is checked when the block is
+ * released (heap overruns are visible in the plain build too), and whether realloc() grows in place or moves is a
+ * deterministic rule (never the real allocator's mood): with sim_knobs.realloc_inplace blocks have 16 byte
+ * granularity and grow in place inside it, otherwise every size change moves the block. */
+#if defined(__has_feature)
+#  if __has_feature(address_sanitizer)
+#    define SEAM_ASAN 1
+#  endif
+#endif
+#if defined(__SANITIZE_ADDRESS__)
+#  define SEAM_ASAN 1
+#endif
+#ifdef SEAM_ASAN
+void __asan_poison_memory_region(void const volatile *addr, size_t size);
+void __asan_unpoison_memory_region(void const volatile *addr, size_t size);
+#endif
 #define AL_CAP (1u << 15)
-static struct { void *p; size_t sz; } g_al[AL_CAP];
+#define AL_REDZ 32
+#define AL_CANARY 0xFD
+static struct { void *p; size_t sz; size_t cap; } g_al[AL_CAP];
 static size_t g_al_live, g_al_bytes;
 static uint64_t g_al_total;
 static unsigned al_slot(const void *p) { return (unsigned)((((uintptr_t)p) >> 4) * 2654435761u) & (AL_CAP - 1); }
-static void al_add(void *p, size_t sz) {
+static void al_add(void *p, size_t sz, size_t cap) {
 	unsigned i = al_slot(p);
 	if (g_al_live * 2 > AL_CAP) { fprintf(stderr, "lcbsim: allocation ledger full\n"); abort(); }
 	while (g_al[i].p && g_al[i].p != (void *)1) i = (i + 1) & (AL_CAP - 1);
-	g_al[i].p = p; g_al[i].sz = sz; g_al_live++; g_al_bytes += sz; g_al_total++;
+	g_al[i].p = p; g_al[i].sz = sz; g_al[i].cap = cap; g_al_live++; g_al_bytes += sz; g_al_total++;
 }
 static int al_find(const void *p) {
 	unsigned i = al_slot(p);
@@ -69,21 +87,53 @@ static int al_find(const void *p) {
 	}
 	return -1;
 }
-static int al_del(void *p) {
-	int i = al_find(p);
-	if (i < 0) return -1;
+static void al_del_idx(int i) {
 	g_al_bytes -= g_al[i].sz; g_al_live--;
 	g_al[i].p = (void *)1; /* tombstone */
-	return 0;
 }
 size_t sim_lib_allocs_live(void) { return g_al_live; }
 size_t sim_lib_alloc_bytes_live(void) { return g_al_bytes; }
 int sim_alloc_is_live(const void *p) { return al_find(p) >= 0; }
 uint64_t sim_alloc_count(void) { return g_al_total; }
+
+static void *al_raw_alloc(size_t sz, int zero) {
+	size_t cap = sim_knobs.realloc_inplace ? ((sz + 15u) & ~(size_t)15u) : sz;
+	uint8_t *p = zero ? calloc(1, cap + AL_REDZ) : malloc(cap + AL_REDZ);
+	if (!p) return NULL;
+	memset(p + cap, AL_CANARY, AL_REDZ);
+#ifdef SEAM_ASAN
+	__asan_poison_memory_region(p + cap, AL_REDZ);
+#endif
+	al_add(p, sz, cap);
+	return p;
+}
+/* returns 0 if the red zone is intact */
+static int al_check_redzone(int i) {
+	uint8_t *p = g_al[i].p;
+	int bad = 0;
+#ifdef SEAM_ASAN
+	__asan_unpoison_memory_region(p + g_al[i].cap, AL_REDZ);
+#endif
+	for (int k = 0; k < AL_REDZ; k++) if (p[g_al[i].cap + (size_t)k] != AL_CANARY) { bad = k + 1; break; }
+	return bad;
+}
+static void al_raw_free(int i, int check) {
+	void *p = g_al[i].p;
+	int bad = al_check_redzone(i);
+	size_t sz = g_al[i].sz;
+	al_del_idx(i);
+	free(p);
+	if (bad && check) sim_violation("heap-overrun", "library wrote %d byte(s) or more past the end of a %zu byte allocation (red zone damaged)", bad, sz);
+}
 void sim_alloc_reset(void) {
 	for (unsigned i = 0; i < AL_CAP; i++) {
-		if (g_al[i].p && g_al[i].p != (void *)1) free(g_al[i].p);
-		g_al[i].p = NULL; g_al[i].sz = 0;
+		if (g_al[i].p && g_al[i].p != (void *)1) {
+#ifdef SEAM_ASAN
+			__asan_unpoison_memory_region((uint8_t *)g_al[i].p + g_al[i].cap, AL_REDZ);
+#endif
+			free(g_al[i].p);
+		}
+		g_al[i].p = NULL; g_al[i].sz = 0; g_al[i].cap = 0;
 	}
 	g_al_live = 0; g_al_bytes = 0; g_al_total = 0;
 }
@@ -91,25 +141,34 @@ void sim_alloc_reset(void) {
 void *sim_malloc(size_t sz) {
 	sim_yield("alloc");
 	if (fault_any("alloc", ENOMEM)) { sim_probe("fault.alloc"); errno = ENOMEM; return NULL; }
-	void *p = malloc(sz);
-	if (p) al_add(p, sz);
-	return p;
+	return al_raw_alloc(sz, 0);
 }
 void *sim_calloc(size_t n, size_t sz) {
 	sim_yield("alloc");
 	if (fault_any("alloc", ENOMEM)) { sim_probe("fault.alloc"); errno = ENOMEM; return NULL; }
-	void *p = calloc(n, sz);
-	if (p) al_add(p, n * sz);
-	return p;
+	if (sz && n > SIZE_MAX / sz) { errno = ENOMEM; return NULL; }
+	return al_raw_alloc(n * sz, 1);
 }
 void *sim_realloc(void *old, size_t sz) {
+	int i = -1;
+	void *p;
 	sim_yield("alloc");
-	if (old && al_find(old) < 0) { sim_violation("free-unknown", "realloc of pointer %p that is not a live library allocation", old); return NULL; }
+	if (old && (i = al_find(old)) < 0) { sim_violation("free-unknown", "realloc of pointer %p that is not a live library allocation", old); return NULL; }
 	if (fault_any("alloc", ENOMEM)) { sim_probe("fault.alloc"); errno = ENOMEM; return NULL; }
-	if (old) al_del(old);
-	void *p = realloc(old, sz);
-	if (p) { al_add(p, sz); if (old && p != old) sim_probe("alloc.realloc_moved"); }
-	else if (old && sz != 0) al_add(old, 0);
+	if (!old) return al_raw_alloc(sz, 0);
+	if (sim_knobs.realloc_inplace && sz <= g_al[i].cap && sz > 0) {
+		/* grows/shrinks inside the block's granule: same address */
+		g_al_bytes += sz; g_al_bytes -= g_al[i].sz;
+		g_al[i].sz = sz;
+		sim_probe("alloc.realloc_in_place");
+		return old;
+	}
+	p = al_raw_alloc(sz, 0);
+	if (!p) return NULL;
+	memcpy(p, old, g_al[i].sz < sz ? g_al[i].sz : sz);
+	i = al_find(old);
+	al_raw_free(i, 1);
+	sim_probe("alloc.realloc_moved");
 	return p;
 }
 void *sim_reallocarray(void *old, size_t n, size_t sz) {
@@ -117,9 +176,10 @@ void *sim_reallocarray(void *old, size_t n, size_t sz) {
 	return sim_realloc(old, n * sz);
 }
 void sim_free(void *p) {
+	int i;
 	if (!p) return;
-	if (al_del(p) < 0) { sim_violation("free-unknown", "free of pointer %p that is not a live library allocation (double free or foreign pointer)", p); return; }
-	free(p);
+	if ((i = al_find(p)) < 0) { sim_violation("free-unknown", "free of pointer %p that is not a live library allocation (double free or foreign pointer)", p); return; }
+	al_raw_free(i, 1);
 }
 
 /* ------------------------------------------------------------ pthreads */
